@@ -1,5 +1,6 @@
 import ast
 import collections
+import copy
 import itertools
 import re
 from typing import Collection, Iterable, Sequence, Tuple
@@ -488,6 +489,8 @@ def create_abstractions(source: str) -> str:
             ):
                 col_offset = nodes[0].col_offset
                 lineno = nodes[0].lineno
+                # The nodes of the parsed tree are cached, so they must not be modified
+                function_body = [copy.copy(child) for child in function_body]
                 for i, child in enumerate(function_body):
                     child.lineno = lineno + i
                     child.col_offset = col_offset
@@ -605,7 +608,8 @@ def overused_constant(source: str, *, root_is_static: bool) -> str:
         )
 
         name = ast.Name(id=variable_name)
-        assign = core.parse(f"{variable_name} = {code}").body[0]
+        # Not core.parse(), since its result is cached and assign is modified
+        assign = ast.parse(f"{variable_name} = {code}").body[0]
         assign.lineno = _get_constant_insertion_lineno(best_common_scope)
         assign.col_offset = best_common_scope.body[0].col_offset
         additions.add(assign)
